@@ -331,6 +331,12 @@ func RunN[S any](t *testing.T, id string, scale float64, gen func(*rapid.T) S, r
 		shard = "0"
 	}
 	runRegress(t, id, run)
+	if t.Failed() {
+		// a saved scenario violates the property again: reported with that file as the replay; rapid refuses to
+		// start on a test that has already failed
+		executed = want
+		return
+	}
 	rapid.Check(t, func(rt *rapid.T) {
 		s := gen(rt)
 		scen, err := json.Marshal(s)
